@@ -1060,3 +1060,71 @@ Lemma Rltb_irrefl : forall x : R, Rltb x x = false.
 Proof. intros x. apply Rltb_false. apply Rle_refl. Qed.
 Lemma Rleb_not_gt : forall a b : R, Rleb a b = true -> Rltb b a = false.
 Proof. intros a b H. apply Rleb_true in H. apply Rltb_false. exact H. Qed.
+
+(* ------------------------------------------------------------------------------------------ *)
+(* Part 5: the stored temperature constraints are read BY KEY, so key order is immaterial       *)
+(* ------------------------------------------------------------------------------------------ *)
+(* DailySubmodelParameters.temperature_constraints is a JSON object (Dict[str, float]); _predict_submodel reads its four
+   entries by key.  Reading by key from a duplicate-free association list is invariant under any permutation of the
+   list, hence so are the constraints record and the three prediction columns, for every numeric instance. *)
+From Coq Require Import String Permutation.
+
+Section ByKey.
+Variable A : Type.
+
+Fixpoint lookup (k : string) (l : list (string * A)) : option A :=
+  match l with
+  | [] => None
+  | (k', v) :: rest => if String.eqb k k' then Some v else lookup k rest
+  end.
+
+Lemma lookup_not_in : forall k l, ~ In k (map fst l) -> lookup k l = None.
+Proof.
+  intros k l. induction l as [|[k' v] l IH]; intros H; [reflexivity|]. cbn in *.
+  destruct (String.eqb k k') eqn:E.
+  - apply String.eqb_eq in E. exfalso. apply H. left. symmetry. exact E.
+  - apply IH. intros Hin. apply H. right. exact Hin.
+Qed.
+
+Lemma lookup_permutation : forall (l l' : list (string * A)), Permutation l l' -> NoDup (map fst l) ->
+  forall k, lookup k l = lookup k l'.
+Proof.
+  intros l l' P. induction P as [|[k0 v0] l l' P IH|[k1 v1] [k2 v2] l|l1 l2 l3 P1 IH1 P2 IH2]; intros ND k.
+  - reflexivity.
+  - cbn. cbn in ND. inversion ND as [|? ? Hn ND']; subst. rewrite (IH ND' k). reflexivity.
+  - cbn. cbn in ND. inversion ND as [|? ? Hn ND']; subst.
+    destruct (String.eqb k k2) eqn:E2; destruct (String.eqb k k1) eqn:E1; try reflexivity.
+    apply String.eqb_eq in E1, E2. subst. exfalso. apply Hn. left. reflexivity.
+  - rewrite (IH1 ND k). apply IH2.
+    apply (Permutation_NoDup (Permutation_map fst P1) ND).
+Qed.
+End ByKey.
+
+Section ConstraintsByKey.
+Variable N : num.
+
+Definition tconstr_of_assoc (l : list (string * N)) : option (tconstr N) :=
+  match lookup N "T_min" l, lookup N "T_max" l, lookup N "T_min_seg" l, lookup N "T_max_seg" l with
+  | Some a, Some b, Some c, Some d => Some (Build_tconstr N a b c d)
+  | _, _, _, _ => None
+  end.
+
+Definition predict_submodel_doc (c : coeffs N) (tcdoc : list (string * N)) (Ti : N) : option (N * N * N) :=
+  match tconstr_of_assoc tcdoc with
+  | Some tc => predict_submodel N c tc Ti
+  | None => None
+  end.
+
+Lemma tconstr_of_assoc_permutation : forall l l', Permutation l l' -> NoDup (map fst l) ->
+  tconstr_of_assoc l = tconstr_of_assoc l'.
+Proof.
+  intros l l' P ND. unfold tconstr_of_assoc.
+  rewrite !(lookup_permutation N l l' P ND). reflexivity.
+Qed.
+
+Lemma predict_key_order_irrelevant : forall c l l' Ti, Permutation l l' -> NoDup (map fst l) ->
+  predict_submodel_doc c l Ti = predict_submodel_doc c l' Ti.
+Proof.
+  intros c l l' Ti P ND. unfold predict_submodel_doc. rewrite (tconstr_of_assoc_permutation l l' P ND). reflexivity.
+Qed.
+End ConstraintsByKey.
